@@ -316,6 +316,43 @@ func (g *Gen) Core() [][]Case {
 			}
 			blocks = append(blocks, oc, again("next"), again("later"))
 		}
+		// blocks that END with (or contain) an ante-level rejection next to executed transactions, then the
+		// executed ones again byte for byte in later blocks: [T, U] [U, T] [T, U, T'] for U = a signer that
+		// cannot pay the fee (auth/6), an over-long memo (auth/1), an in-block duplicate (auth/6 from the tx cache)
+		{
+			g.entropy++
+			longMemo := Case{Kind: "core-lastante-longmemo/owner/good/fee-equal", Variant: "-",
+				Raw: Build(TxSpec{Msg: chain.MsgSend(ro.Rich[0].Addr, ro.Rich[1].Addr, 51), Fee: sdk.Coins{sdk.Coin{Denom: "upokt", Amount: sdk.NewInt(g.reqFor(chain.MsgSend(ro.Rich[0].Addr, ro.Rich[1].Addr, 51)))}},
+					Memo: strings.Repeat("m", 300), Entropy: g.entropy, SignChain: g.ChainID, By: Single{ro.Rich[0]}})}
+			var executed []Case
+			tx := func(i int64) Case {
+				c := mk("lastante-executed", chain.MsgSend(ro.Rich[int(i)%3].Addr, ro.Rich[int(i+1)%3].Addr, 60+i), Single{ro.Rich[int(i)%3]}, eq, "equal")
+				executed = append(executed, c)
+				return c
+			}
+			unfunded := func() Case {
+				return mk("lastante-unfunded", chain.MsgSend(ro.Poor[0].Addr, ro.Rich[1].Addr, 1), Single{ro.Poor[0]}, eq, "equal")
+			}
+			dupOf := func(c Case) Case { c.Kind = "core-lastante-inblockdup/owner/good/fee-equal"; return c }
+			t1, t2, t3, t4, t5, t6, t7 := tx(1), tx(2), tx(3), tx(4), tx(5), tx(6), tx(7)
+			blocks = append(blocks,
+				[]Case{t1, unfunded()},           // [T, U]
+				[]Case{t2, longMemo},             // [T, U]
+				[]Case{t3, dupOf(t3)},            // [T, U] with U = in-block duplicate
+				[]Case{unfunded(), t4},           // [U, T]
+				[]Case{t5, unfunded(), t6},       // [T, U, T']
+				[]Case{t7, longMemo, dupOf(t7)},  // [T, U, U]
+			)
+			again := func(tag string) []Case {
+				var out []Case
+				for _, c := range executed {
+					c.Kind = "core-resubmit-" + tag + "-lastante/owner/good/fee-equal"
+					out = append(out, c)
+				}
+				return out
+			}
+			blocks = append(blocks, again("next"), again("later"))
+		}
 		// every re-encoding class of an executed transfer: in the same block, in the next block
 		for _, cl := range Reencodings() {
 			class := cl.Name
